@@ -3,6 +3,7 @@ package main
 import (
 	"crypto/sha256"
 	"fmt"
+	"math"
 	"regexp"
 	"runtime"
 	"sort"
@@ -97,6 +98,11 @@ func newExplorer(depth int) (*explorer, error) {
 	for i := 1000; i <= 1000+depth+1; i++ {
 		e.chkIDs = append(e.chkIDs, i)
 	}
+
+	// ids far from every id ever handed out, congruent to live ones modulo the
+	// widths an implementation may narrow an id to (16 and 32 bits), and the ends
+	// of the range: an id is an int, a lookup by id must answer for exactly that int
+	e.chkIDs = append(e.chkIDs, -1, 1<<16, 1<<16+1001, 1<<32, 1<<32+1001, -(1 << 32), 1001-(1<<32), math.MaxInt64, math.MinInt64)
 
 	e.ops = alphabet(e.groups, e.users, e.opIDs)
 	if len(e.ops) > 250 {
